@@ -272,9 +272,9 @@ Qed.
 
 (** `--opt v` (the value in the next token): flush what was pending, then the occurrence itself
     becomes the pending one (it is flushed by the next [react] or by the phases after the loop) *)
-Definition sep_fn (c : cmd) (a : arg) (v : bytes) (st : ps) : res ps :=
+Definition sep_fn (c : cmd) (idn : ident) (a : arg) (v : bytes) (st : ps) : res ps :=
   do st1 <- resolve_pending c st;
-  ROk (st1 <| mt := (mt st1) <| mt_pending := Some (mkPending (a_id a) (Some ILong) [v] None) |> |>).
+  ROk (st1 <| mt := (mt st1) <| mt_pending := Some (mkPending (a_id a) (Some idn) [v] None) |> |>).
 
 Definition long_occ (a : arg) (raw : list bytes) : occ := mkOcc (Some ILong) SCmdLine a raw None.
 
@@ -361,7 +361,7 @@ Lemma loop_long_sep tok f a r v rest pos vaf st :
   a_req_eq a = false -> find_arg c (a_id a) = Some a -> a_num a = Some r -> r_accepts_more r 1 = false ->
   no_sub c v -> is_escape v = false -> to_long v = None -> to_short v = None -> check_terminator a v = false ->
   parse_loop c (tok :: v :: rest) (lsV pos vaf) st =
-  (do st' <- sep_fn c a v st; parse_loop c rest (lsV pos true) st').
+  (do st' <- sep_fn c ILong a v st; parse_loop c rest (lsV pos true) st').
 Proof.
   intros Hns Hl Hg Htv Hre Hf Hn Hacc Hnsv Hev Hlv Hsv Hct.
   rewrite (loop_long_open tok f a (v :: rest) pos vaf st Hns Hl Hg Htv Hre).
@@ -391,6 +391,69 @@ Proof.
   rewrite orb_true_r, (Hns vaf), Hesc, Hlong, Hshort, Hpsa.
   destruct (react_all c os st) as [st1|e st1|site]; cbn [rbind fst snd]; reflexivity.
 Qed.
+(** short options: `-ov` (value attached) and `-o v` *)
+Definition no_hyphen (c0 : cmd) : Prop := forall pos, no_hyphen_pos c0 pos.
+Definition short_occ (a : arg) (raw : list bytes) : occ := mkOcc (Some IShort) SCmdLine a raw None.
+
+Lemma loop_short_att tok r ch b t a rest pos vaf st :
+  no_sub c tok -> is_escape tok = false -> to_long tok = None -> to_short tok = Some r ->
+  sf_next r = Some (inl ch, b :: t) -> b <> 61 -> get_short c ch = Some a -> a_takes_value a = true ->
+  a_req_eq a = false -> no_hyphen c -> fs_skip st = 0 ->
+  parse_loop c (tok :: rest) (lsV pos vaf) st =
+  (do st' <- react_all c [short_occ a [b :: t]] st; parse_loop c rest (lsV pos true) st').
+Proof.
+  intros Hns He Hl Hs Hn Hb Hg Htv Hre Hpos Hsk. unfold lsV. cbn [parse_loop l_trailing l_pst l_vaf l_pos].
+  rewrite orb_true_r, (Hns vaf), He, Hl, Hs.
+  rewrite (parse_short_arg_clean c r pos vaf st Hsk (Hpos pos)).
+  replace (st <| fs_skip := 0 |>) with st by (destruct st as [m0 ci fa fk]; cbn in Hsk; subst fk; reflexivity).
+  rewrite (short_loop_opt_attached c _ r ch a b t PRNoArg vaf st Hn Hb Hg Htv Hre).
+  unfold parse_opt_value. rewrite Hre. cbn [andb].
+  cbn [react_all short_occ o_ident o_src o_arg o_raw o_ti]. unfold bytes in *.
+  match goal with |- context [react ?a1 ?a2 ?a3 ?a4 ?a5 ?a6 ?a7] =>
+    destruct (react a1 a2 a3 a4 a5 a6 a7) as [[st1 pr]|e st1|site] end; cbn [rbind fst snd]; reflexivity.
+Qed.
+
+Lemma loop_short_open tok r ch a rest pos vaf st :
+  no_sub c tok -> is_escape tok = false -> to_long tok = None -> to_short tok = Some r ->
+  sf_next r = Some (inl ch, []) -> get_short c ch = Some a -> a_takes_value a = true ->
+  a_req_eq a = false -> no_hyphen c -> fs_skip st = 0 ->
+  parse_loop c (tok :: rest) (lsV pos vaf) st =
+  (do st1 <- resolve_pending c st;
+   parse_loop c rest (mkL (PSOpt (a_id a)) pos true false)
+     (st1 <| mt := (mt st1) <| mt_pending := Some (mkPending (a_id a) (Some IShort) [] None) |> |>)).
+Proof.
+  intros Hns He Hl Hs Hn Hg Htv Hre Hpos Hsk. unfold lsV. cbn [parse_loop l_trailing l_pst l_vaf l_pos].
+  rewrite orb_true_r, (Hns vaf), He, Hl, Hs.
+  rewrite (parse_short_arg_clean c r pos vaf st Hsk (Hpos pos)).
+  replace (st <| fs_skip := 0 |>) with st by (destruct st as [m0 ci fa fk]; cbn in Hsk; subst fk; reflexivity).
+  rewrite (short_loop_opt_alone c _ r ch a PRNoArg vaf st Hn Hg Htv).
+  unfold parse_opt_value. rewrite Hre. cbn [andb].
+  destruct (resolve_pending c st) as [st1|e s1|x] eqn:RP; cbn [rbind]; try reflexivity.
+  pose proof (resolve_pending_clears _ _ _ RP) as PN.
+  assert (PV1 : pending_values_push (mt st1) (a_id a) (Some IShort) false None =
+                Some ((mt st1) <| mt_pending := Some (mkPending (a_id a) (Some IShort) [] None) |>)).
+  { unfold pending_values_push. rewrite PN. cbn [p_id p_ident p_raw p_trailing_idx is_some].
+    rewrite beq_refl. reflexivity. }
+  rewrite PV1. cbn [expect rbind fst snd]. reflexivity.
+Qed.
+
+Lemma loop_short_sep tok r0 ch a r v rest pos vaf st :
+  no_sub c tok -> is_escape tok = false -> to_long tok = None -> to_short tok = Some r0 ->
+  sf_next r0 = Some (inl ch, []) -> get_short c ch = Some a -> a_takes_value a = true ->
+  a_req_eq a = false -> no_hyphen c -> find_arg c (a_id a) = Some a -> a_num a = Some r -> r_accepts_more r 1 = false ->
+  no_sub c v -> is_escape v = false -> to_long v = None -> to_short v = None -> check_terminator a v = false ->
+  fs_skip st = 0 ->
+  parse_loop c (tok :: v :: rest) (lsV pos vaf) st =
+  (do st' <- sep_fn c IShort a v st; parse_loop c rest (lsV pos true) st').
+Proof.
+  intros Hns He Hl Hs Hn Hg Htv Hre Hpos Hf Hnum Hacc Hnsv Hev Hlv Hsv Hct Hsk.
+  rewrite (loop_short_open tok r0 ch a (v :: rest) pos vaf st Hns He Hl Hs Hn Hg Htv Hre Hpos Hsk).
+  unfold sep_fn. destruct (resolve_pending c st) as [st1|e s1|x]; cbn [rbind]; try reflexivity.
+  set (st2 := st1 <| mt := (mt st1) <| mt_pending := Some (mkPending (a_id a) (Some IShort) [] None) |> |>).
+  pose proof (loop_value v rest pos true st2 a r (mkPending (a_id a) (Some IShort) [] None)
+                Hnsv Hev Hlv Hsv Hf Hct Hnum Hacc eq_refl eq_refl) as HV.
+  rewrite HV. reflexivity.
+Qed.
 End Items.
 
 (** ** the class of option prefixes: a list of items, with the state transformer it denotes *)
@@ -405,10 +468,21 @@ Inductive item (c : cmd) : list bytes -> (ps -> res ps) -> Prop :=
     no_sub c tok -> to_long tok = Some (f, true, None) -> get_long c f = Some a -> a_takes_value a = true ->
     a_req_eq a = false -> find_arg c (a_id a) = Some a -> a_num a = Some r -> r_accepts_more r 1 = false ->
     no_sub c v -> is_escape v = false -> to_long v = None -> to_short v = None -> check_terminator a v = false ->
-    item c [tok; v] (sep_fn c a v)
+    item c [tok; v] (sep_fn c ILong a v)
 | it_cluster tok os :      (* `-abc`: ASCII shorts of arguments that take no value *)
     no_sub c tok -> cluster_token c tok os ->
-    item c [tok] (react_all c os).
+    item c [tok] (react_all c os)
+| it_short_att tok r ch b t a :   (* `-ov`: the value attached, not starting with `=` *)
+    no_sub c tok -> is_escape tok = false -> to_long tok = None -> to_short tok = Some r ->
+    sf_next r = Some (inl ch, b :: t) -> b <> 61 -> get_short c ch = Some a -> a_takes_value a = true ->
+    a_req_eq a = false -> no_hyphen c ->
+    item c [tok] (react_all c [short_occ a [b :: t]])
+| it_short_sep tok r0 ch a r v :  (* `-o v` *)
+    no_sub c tok -> is_escape tok = false -> to_long tok = None -> to_short tok = Some r0 ->
+    sf_next r0 = Some (inl ch, []) -> get_short c ch = Some a -> a_takes_value a = true ->
+    a_req_eq a = false -> no_hyphen c -> find_arg c (a_id a) = Some a -> a_num a = Some r -> r_accepts_more r 1 = false ->
+    no_sub c v -> is_escape v = false -> to_long v = None -> to_short v = None -> check_terminator a v = false ->
+    item c [tok; v] (sep_fn c IShort a v).
 
 Inductive prefix_ok (c : cmd) : list bytes -> (ps -> res ps) -> Prop :=
 | po_nil : prefix_ok c [] (fun st => ROk st)
@@ -423,13 +497,15 @@ Proof.
   - apply (loop_long_eq c tok f v a); assumption.
   - apply (loop_long_sep c tok f a r v); assumption.
   - apply loop_cluster; assumption.
+  - apply (loop_short_att c tok r ch b t a); assumption.
+  - apply (loop_short_sep c tok r0 ch a r v); assumption.
 Qed.
 
 Lemma item_fs c toks F : item c toks F -> forall st st', F st = ROk st' -> fs_skip st' = fs_skip st.
 Proof.
   intros Hi st st' H. destruct Hi; try (apply (react_all_fs _ _ _ _ H)).
-  unfold sep_fn in H. destruct (resolve_pending c st) as [st1|e s1|x] eqn:E; cbn [rbind] in H; try discriminate.
-  inversion H; subst. apply resolve_pending_fs in E. rewrite <- E. reflexivity.
+  all: unfold sep_fn in H; destruct (resolve_pending c st) as [st1|e s1|x] eqn:E; cbn [rbind] in H; try discriminate;
+    inversion H; subst; apply resolve_pending_fs in E; rewrite <- E; reflexivity.
 Qed.
 
 Lemma item_nonempty c toks F : item c toks F -> is_nil toks = false.
@@ -1190,8 +1266,8 @@ Qed.
 Lemma item_fsat c toks F : item c toks F -> forall st st', F st = ROk st' -> fs_at st' = fs_at st.
 Proof.
   intros Hi st st' H. destruct Hi; try (apply (react_all_fsat _ _ _ _ H)).
-  unfold sep_fn in H. destruct (resolve_pending c st) as [st1|e s1|x] eqn:E; cbn [rbind] in H; try discriminate.
-  inversion H; subst. apply resolve_pending_fsat in E. rewrite <- E. reflexivity.
+  all: unfold sep_fn in H; destruct (resolve_pending c st) as [st1|e s1|x] eqn:E; cbn [rbind] in H; try discriminate;
+    inversion H; subst; apply resolve_pending_fsat in E; rewrite <- E; reflexivity.
 Qed.
 
 Lemma prefix_fsat c pre F : prefix_ok c pre F -> forall st st', F st = ROk st' -> fs_at st' = fs_at st.
@@ -1649,3 +1725,45 @@ Example ex_gline_levels :
   map c_name (lazy_cmds (build_self ex_tree) (real_names [[115; 121; 110; 99]; b1 113; [116]] (Some [[45; 45]; [45; 120]])))
   = [b1 112; [115; 121; 110; 99]; b1 113].
 Proof. vm_compute. reflexivity. Qed.
+
+(** short options in a prefix: `-g w sy -y -gx q` on [ex_tree] (`-g` is the global option of the top level) *)
+Lemma pos_free_no_hyphen c : pos_free c -> no_hyphen c.
+Proof. intros H pos. unfold no_hyphen_pos. rewrite (pos_free_get_pos c pos H). exact I. Qed.
+
+Definition ex_sline : list bytes := [[45; 103]; b1 119; [115; 121]; [45; 121]; [45; 103; 120]; b1 113].
+
+Example ex_sline_is_line :
+  exists names, line (build_self ex_tree) ex_sline names None /\ names = [[115; 121; 110; 99]; b1 113].
+Proof.
+  eexists. split.
+  - eapply (ln_sub _ [[45; 103]; b1 119] [115; 121] _ _ _ [[45; 121]; [45; 103; 120]; b1 113]).
+    + split; vmr.
+    + eexists. eapply (po_cons _ [[45; 103]; b1 119] _ []); [|apply po_nil].
+      eapply (it_short_sep _ [45; 103] [103] 103);
+        [solve_nosub|vmr|vmr|vmr|vmr|vmr|vmr|vmr|apply pos_free_no_hyphen; vmr|vmr|vmr|vmr|solve_nosub|vmr|vmr|vmr|vmr].
+    + eapply sel_name; [vmr|vmr|vmr|vmr].
+    + vmr.
+    + split; vmr.
+    + vmr.
+    + eapply (ln_sub _ [[45; 121]; [45; 103; 120]] (b1 113) _ _ _ []).
+      * split; vmr.
+      * eexists. eapply (po_cons _ [[45; 121]] _ [[45; 103; 120]]).
+        { eapply it_cluster; [solve_nosub|].
+          exists 121, []. split; [reflexivity|]. split; [discriminate|]. split; [reflexivity|].
+          eapply cf_cons; [reflexivity|vmr|vmr|apply cf_nil]. }
+        eapply (po_cons _ [[45; 103; 120]] _ []); [|apply po_nil].
+        eapply (it_short_att _ [45; 103; 120] [103; 120] 103 120 []);
+          [solve_nosub|vmr|vmr|vmr|vmr|discriminate|vmr|vmr|vmr|apply pos_free_no_hyphen; vmr].
+      * eapply sel_name; [vmr|vmr|vmr|vmr].
+      * vmr.
+      * split; vmr.
+      * vmr.
+      * apply ln_end. exists (fun st => ROk st). apply po_nil.
+  - vmr.
+Qed.
+
+Example ex_sline_parses :
+  exists m', do_parse ex_tree ex_sline = OOk m' /\ chain m' = [[115; 121; 110; 99]; b1 113] /\
+    map (fun lv => opt_map (fun e => (m_source e, m_raw e)) (fm_get (b1 103) lv)) (levels m') =
+      [Some (Some SCmdLine, [[b1 120]]); Some (Some SCmdLine, [[b1 120]]); Some (Some SCmdLine, [[b1 120]])].
+Proof. vm_compute. eexists. repeat split; reflexivity. Qed.
